@@ -219,7 +219,7 @@ def check(run, ctx):
         if "config" in f.module.name or "config" in f.name or "layout" in f.name or "ignore" in f.name and "thailintignore" in ast.unparse(f.node):
             continue
         for c in ast.walk(f.node):
-            if isinstance(c, ast.Call) and call_name(c) in ("read_text", "read_bytes"):
+            if isinstance(c, ast.Call) and (call_name(c) in ("read_text", "read_bytes") or (call_name(c) in ("read", "readline", "readlines") and isinstance(c.func, ast.Attribute) and any(isinstance(w_, (ast.With, ast.AsyncWith)) and any(isinstance(i_.context_expr, ast.Call) and call_name(i_.context_expr) == "open" for i_ in w_.items) for w_ in ast.walk(f.node)))):
                 sym = fq.replace("src.", "", 1)
                 u, o = is_caught(f.node, c, "UnicodeDecodeError"), is_caught(f.node, c, "OSError")
                 if not (u and o):
